@@ -37,6 +37,32 @@ func converged(c *sim.Cluster) (string, string) {
 				}
 			}
 		}
+		if len(leaders) == 0 {
+			// known root cause F29: a vote request is ignored unless the receiver's *own* latest configuration lists
+			// both the candidate and the receiver as voters. A receiver whose configuration is behind (it has not
+			// received the entry that made the candidate - or itself - a voter, e.g. a node added as a voter while
+			// empty) withholds a vote the election needs, and its own candidacy is refused for its shorter log.
+			ids := make([]string, 0, len(v.Conf))
+			for id := range v.Conf {
+				ids = append(ids, id)
+			}
+			sort.Strings(ids)
+			for _, x := range ids {
+				cx := v.Conf[x]
+				if _, running := v.Status[x]; !running || cx == nil || !cx.Members[x] {
+					continue
+				}
+				for _, y := range ids {
+					cy := v.Conf[y]
+					if _, running := v.Status[y]; !running || y == x || cy == nil || !cx.Members[y] {
+						continue
+					}
+					if !cy.Members[x] || !cy.Members[y] {
+						return "C15/vote-withheld-by-outdated-configuration", fmt.Sprintf("no leader: %s (configuration %v, entry %d) needs the vote of %s, whose own configuration %v (entry %d) does not list both of them as voters, so it ignores the request; status %v", x, cx.Members, cx.Index, y, cy.Members, cy.Index, statusLine(v))
+					}
+				}
+			}
+		}
 		return "C15/not-exactly-one-leader", fmt.Sprintf("running nodes in leader state: %v; status %v", leaders, statusLine(v))
 	}
 	l := leaders[0]
